@@ -269,4 +269,13 @@ example : toRingPos 2 (-3) = (4, 15) ∧ fromRingPos 4 15 = some (2, -3) := by d
 example : (1 : Int) ≤ 3 ∧ (1 : Int) ≤ 12 ∧ (12 : Int) ≤ positionsInRing 3 := by decide
 example : numRings 20 = 4 ∧ totalUpTo 3 = 19 ∧ totalUpTo 4 = 37 := by decide +kernel
 
+/-- the neighbours of (i, j, k) are the planar neighbours of (i, j), in the same order, all at axial index k -/
+theorem neighbours3_spec (i j k : Int) :
+    (neighbours3 i j k).map (fun c => (c.1, c.2.1)) = neighbours i j ∧ ∀ c ∈ neighbours3 i j k, c.2.2 = k := by
+  constructor
+  · rfl
+  · intro c hc
+    simp only [neighbours3, List.mem_cons, List.not_mem_nil, or_false] at hc
+    rcases hc with h | h | h | h | h | h <;> rw [h]
+
 end ArmiVerif.Hex
